@@ -315,6 +315,7 @@ pub fn check(sh: &mut Shard, class: &str, l: &Ladder, static_check: bool) {
     }
     crate::refint::set_model_fuel(40_000_000);
     let model = Interp::eval(&ast);
+    crate::refint::set_model_fuel(crate::refint::MODEL_FUEL);
     let imp = run_ast(&ast, opts());
     sh.outcome(&(&imp.end, &imp.output));
     if !matches!(model.end, End::Value(_)) {
